@@ -145,7 +145,22 @@ def make_cases(chk, rng):
                         kind = f"settings-{fld}"
                         good = dict(h.st)
                         h.raw("sol.dump", "")
-                        h.settings(**{fld: val})
+                        # a whole rejected "settings profile": other (valid) fields differ as well and are reverted afterwards,
+                        # so anything the rejected solve() latches from them shows up in the following valid calls
+                        prof = {fld: val}
+                        if rr.random() < 0.8:
+                            prof["iterative_refinement_always_enabled"] = 1 - good["iterative_refinement_always_enabled"]
+                        if rr.random() < 0.5 and fld != "preconditioner_iter":
+                            prof["preconditioner_iter"] = rr.choice([0, 1, 3])
+                        if rr.random() < 0.5 and fld != "preconditioner_scale_cost":
+                            prof["preconditioner_scale_cost"] = 1 - good["preconditioner_scale_cost"]
+                        if rr.random() < 0.5 and fld != "max_iter":
+                            prof["max_iter"] = 2
+                        if rr.random() < 0.5 and fld != "rho_init":
+                            prof["rho_init"] = F(1, 2 ** 3)
+                        if rr.random() < 0.5 and fld != "check_duality_gap":
+                            prof["check_duality_gap"] = 1 - good["check_duality_gap"]
+                        h.settings(**prof)
                         h.raw("sol.solve", f"REJ:{kind}").raw("sol.dump", "")
                         h.st = good
                         h.L.append(gen_sol.settings_line(good))
